@@ -479,7 +479,8 @@ def scratch_copy() -> Path:
 
 def run_checks(root: Path, checks: List[str], jobs: int) -> Dict[str, Tuple[int, str]]:
     out: Dict[str, Tuple[int, str]] = {}
-    env = dict(os.environ, VERIF_REPO=str(root), VERIF_OUT=str(root / "_out"), VERIF_JOBS=str(jobs))
+    env = dict(os.environ, VERIF_REPO=str(root), VERIF_OUT=str(root / "_out"), VERIF_JOBS=str(jobs),
+               VERIF_CACHE=str(root / "_cache"))   # removed with the scratch copy
     for c in checks:
         r = subprocess.run([str(VERIF / "check"), c], env=env, capture_output=True, text=True, timeout=1800)
         lines = [l for l in r.stdout.splitlines() if l.startswith(("VIOLATION", "ANALYSIS-ERROR", "  rule=", "["))]
